@@ -25,7 +25,7 @@ TAlignRefused == IsEv("Align") /\ Ev.r # "Ok" /\ Ev.len = 0 /\ UNCHANGED cvars
 TBindOk == IsEv("Bind") /\ Ev.r \in {"Ok", "InvalidDisplacement"} /\ BindOk(Ev.l, Ev.sec, Ev.off, Ev.unres)
 TBindRefused == IsEv("Bind") /\ Ev.r \notin {"Ok", "InvalidDisplacement"} /\ BindRefused(Ev.l)
 
-RefRec == [target |-> <<0, 0>>, kind |-> Ev.kind, l |-> Ev.l, addend |-> Ev.addend, sec |-> Ev.sec, at |-> Ev.at, len |-> Ev.len, immsz |-> Ev.immsz,
+RefRec == [target |-> <<0, 0>>, form |-> 0, kind |-> Ev.kind, l |-> Ev.l, addend |-> Ev.addend, sec |-> Ev.sec, at |-> Ev.at, len |-> Ev.len, immsz |-> Ev.immsz,
            b |-> IF "b" \in DOMAIN Ev THEN Ev.b ELSE Ev.l,
            immediate |-> IF Ev.kind = "embeddelta"
                            THEN Lab(Ev.l).bound /\ Lab(Ev.b).bound /\ Lab(Ev.l).sec = Lab(Ev.b).sec ELSE FALSE]
@@ -34,7 +34,7 @@ TRefOk == /\ IsEv("Ref") /\ Ev.r = "Ok" /\ Ev.i = Len(refs) + 1
           /\ RefOk(RefRec, Ev.sec, Ev.at)
 TRefRefused == IsEv("Ref") /\ Ev.r # "Ok" /\ RefRefused(Ev.len)
 AbsRec == [kind |-> Ev.kind, l |-> 0, addend |-> 0, sec |-> Ev.sec, at |-> Ev.at, len |-> Ev.len, immsz |-> 0, b |-> 0,
-           immediate |-> FALSE, target |-> Ev.target]
+           immediate |-> FALSE, target |-> Ev.target, form |-> Ev.form]
 TAbsOk == IsEv("AbsRef") /\ Ev.r = "Ok" /\ Ev.i = Len(refs) + 1 /\ RefOk(AbsRec, Ev.sec, Ev.at)
 TAbsRefused == IsEv("AbsRef") /\ Ev.r # "Ok" /\ RefRefused(Ev.len)
 TReflatten == IsEv("Reflatten") /\ Reflattened(Ev.offs, Ev.unres)
